@@ -111,6 +111,15 @@ def spellings(key, args):
         k -= 1
     if k < n:
         out.append(('trailing defaults left out, positional', list(args[:k]), {}))
+    # boolean parameters in the forms a caller holds them: numpy booleans (an element of a boolean array) and 1 / 0
+    for i, (nm, v) in enumerate(pairs):
+        # (only parameters documented as plain booleans; `hemi_north` is type-checked by the library itself and `ell_ht=False` is "no
+        #  height", where 0 would be a height)
+        if isinstance(v, bool) and nm in ('forward_tf', 'positive'):
+            for alt, desc in ((np.bool_(v), 'numpy.bool_'), (int(v), 'int 1/0')):
+                a2 = list(args)
+                a2[i] = alt
+                out.append(('flag %s given as %s' % (nm, desc), a2, {}))
     # documented defaults appended explicitly
     if n < len(names) and all(nm in defaults for nm in names[n:]):
         out.append(('documented defaults given explicitly', list(args) + [_d(defaults[nm]) for nm in names[n:]], {}))
